@@ -4,6 +4,7 @@ stdin: pickle (module, class, sid, params, model)   stdout (last line): JSON {su
 """
 import importlib
 import json
+import os
 import pickle
 import sys
 
@@ -22,6 +23,11 @@ def main():
     try:
         env = ConcEnv(dict(model))
         out = shape.run(env)
+        if os.environ.get('SX_REPLAY_MODE') == 'terminate':
+            # only asked whether the real run comes to an end on this input (API and command line)
+            cli = shape.cli_summary(env.model)
+            print(json.dumps({'terminated': True, 'cli': cli}, default=str))
+            return
         judged = {}
         for name, prop in shape.judge(env, out):
             if isinstance(prop, E.SymBool):
